@@ -295,3 +295,47 @@ Proof.
   set (I := dotw p t w) in *. set (P := dotw p p w) in *. set (Q := dotw t t w) in *. clearbody I P Q. rf.
   apply Rmult_le_pos; [lra | left; apply Rinv_0_lt_compat; exact Hd].
 Qed.
+
+(* ---- Tversky range ------------------------------------------------------------------------------------ *)
+Definition unit01 (l : rvec) : Prop := Forall (fun v => 0 <= v <= 1) l.
+
+Lemma unit01_nonneg l : unit01 l -> nonneg l.
+Proof. induction 1 as [|x l Hx _ IH]; constructor; [lra | exact IH]. Qed.
+
+Lemma unit01_ones_minus l : unit01 l -> nonneg (ones_minus l).
+Proof. induction 1 as [|x l Hx _ IH]; cbn [ones_minus map]; constructor; [rf; lra | exact IH]. Qed.
+
+Lemma tversky_range (alpha beta eps : RF) (p t : rvec) w :
+  unit01 p -> unit01 t -> wnonneg w -> 0 <= alpha -> 0 <= beta -> 0 < eps ->
+  0 < tversky_index alpha beta eps p t w <= 1.
+Proof.
+  intros Hp Ht Hw Ha Hb He. unfold tversky_index. cbv zeta.
+  pose proof (dotw_nonneg p t w (unit01_nonneg p Hp) (unit01_nonneg t Ht) Hw) as HI.
+  pose proof (dotw_nonneg p (ones_minus t) w (unit01_nonneg p Hp) (unit01_ones_minus t Ht) Hw) as HFP.
+  pose proof (dotw_nonneg (ones_minus p) t w (unit01_ones_minus p Hp) (unit01_nonneg t Ht) Hw) as HFN.
+  set (I := dotw p t w) in *. set (FP := dotw p (ones_minus t) w) in *. set (FN := dotw (ones_minus p) t w) in *.
+  clearbody I FP FN. rf.
+  assert (H1 : 0 <= FP * alpha) by (apply Rmult_le_pos; assumption).
+  assert (H2 : 0 <= FN * beta) by (apply Rmult_le_pos; assumption).
+  assert (Hd : 0 < I + eps + FP * alpha + FN * beta) by lra.
+  split.
+  - apply Rmult_lt_0_compat; [lra | apply Rinv_0_lt_compat; exact Hd].
+  - apply Rmult_le_reg_r with (I + eps + FP * alpha + FN * beta); [exact Hd|].
+    unfold Rdiv. rewrite Rmult_assoc, Rinv_l by lra. lra.
+Qed.
+
+Lemma fpow_unit (x : RF) n : 0 <= x <= 1 -> 0 <= fpow x n <= 1.
+Proof.
+  intro H. induction n as [|n IH]; cbn [fpow].
+  - change (@f1 RF) with 1. lra.
+  - destruct IH as [I0 I1]. change (@fmul RF) with Rmult. split; [apply Rmult_le_pos; lra|].
+    replace 1 with (1 * 1) by ring. apply Rmult_le_compat; lra.
+Qed.
+
+Lemma tversky_loss_range gamma (alpha beta eps : RF) (p t : rvec) w :
+  unit01 p -> unit01 t -> wnonneg w -> 0 <= alpha -> 0 <= beta -> 0 < eps ->
+  0 <= tversky_loss gamma alpha beta eps p t w <= 1.
+Proof.
+  intros Hp Ht Hw Ha Hb He. unfold tversky_loss. apply fpow_unit.
+  pose proof (tversky_range alpha beta eps p t w Hp Ht Hw Ha Hb He) as H. rf. lra.
+Qed.
